@@ -431,14 +431,20 @@ def reference(pool, rep, filt, members, blocks):
     if rep != "Median":
         nT = {}
         nTrange = {}
+        nT2 = {}  # what results when the block volume is applied a second time (diagnosis only)
         for nuc in pool.nucs:
             terms = [nuc_temp_terms(xs[i], nuc, infos[i]["sf"]) for i in elig]
-            num = _fsum(w[i] * t[0] for i, t in zip(elig, terms))
-            den = _fsum(w[i] * t[1] for i, t in zip(elig, terms))
+            # the n*v terms already carry the member's volume: the member's share is
+            # weighting parameter (or 1) x atoms, i.e. block weight x atom density
+            num = _fsum(fac[i] * t[0] for i, t in zip(elig, terms))
+            den = _fsum(fac[i] * t[1] for i, t in zip(elig, terms))
             nT[nuc] = num / den if den else 0.0
+            num2 = _fsum(w[i] * t[0] for i, t in zip(elig, terms))
+            den2 = _fsum(w[i] * t[1] for i, t in zip(elig, terms))
+            nT2[nuc] = num2 / den2 if den2 else 0.0
             ts = [c["T"] for i in elig for c in xs[i]["comps"] if nuc in c["nd"]]
             nTrange[nuc] = (min(ts), max(ts)) if ts else (0.0, 0.0)
-        ref["nT"], ref["nTrange"] = nT, nTrange
+        ref["nT"], ref["nTrange"], ref["nT2"] = nT, nTrange, nT2
         hm = [xs[i]["massHmBOL"] * fac[i] for i in range(len(members))]
         hsum = _fsum(hm[i] for i in elig)
         ref["bu_mean"] = _fsum(hm[i] * bu[i] for i in elig) / hsum if hsum else 0.0
@@ -474,13 +480,16 @@ def reference(pool, rep, filt, members, blocks):
             for name in names[0]:
                 cs = [[c for c in xs[i]["comps"] if c["name"] == name][0] for i in elig]
                 cn[name] = {nuc: (_fsum(w[i] * c["nd"].get(nuc, 0.0) for i, c in zip(elig, cs)) / wsum, min(c["nd"].get(nuc, 0.0) for c in cs), max(c["nd"].get(nuc, 0.0) for c in cs)) for nuc in pool.nucs}
-                wt = [w[i] / xs[i]["height"] for i in elig]
-                mt = _fsum(a * c["m"] for a, c in zip(wt, cs))
-                if mt == 0.0:
-                    Tm = _fsum(c["T"] for c in cs) / len(cs)
-                else:
-                    Tm = _fsum(a * c["m"] * c["T"] for a, c in zip(wt, cs)) / mt
-                cT[name] = (Tm, min(c["T"] for c in cs), max(c["T"] for c in cs))
+                # block weight with the volume taken out (the component mass carries it) x mass
+                Tm = []
+                for wt in ([fac[i] for i in elig], [w[i] / xs[i]["height"] for i in elig]):
+                    mt = _fsum(a * c["m"] for a, c in zip(wt, cs))
+                    if mt == 0.0:
+                        Tm.append(_fsum(c["T"] for c in cs) / len(cs))  # massless (gap): plain mean, as documented
+                    else:
+                        Tm.append(_fsum(a * c["m"] * c["T"] for a, c in zip(wt, cs)) / mt)
+                # Tm[1]: height as the volume proxy leaves the symmetry factor in (diagnosis only)
+                cT[name] = (Tm[0], min(c["T"] for c in cs), max(c["T"] for c in cs), Tm[1])
             ref["cn"], ref["cT"] = cn, cT
         else:
             ref["mode"] = "block"
@@ -548,7 +557,10 @@ def compare(pool, rep, filt, members, blocks, ref, status, res, rb, case):
         want = ref["nT"][nuc]
         lo, hi = ref["nTrange"][nuc]
         if got is None or not _close(got, want):
-            bad(tag + "-nuclide-temperature-mean", "avg temperature of %s = %r, weight-normalised atom-weighted mean over the eligible members = %r" % (nuc, got, want))
+            if got is not None and _close(got, ref["nT2"][nuc]):
+                bad("nuclide-temperature-volume-weighted-twice", "avg temperature of %s = %r; weight (flux-or-1 x volume) x atom-density mean over the eligible members = %r; the result equals the mean in which each member's volume is applied twice (%r)" % (nuc, got, want, ref["nT2"][nuc]))
+            else:
+                bad(tag + "-nuclide-temperature-mean", "avg temperature of %s = %r, weight-normalised atom-weighted mean over the eligible members = %r" % (nuc, got, want))
             break
     for nuc in pool.nucs:
         got = res["nT"].get(nuc)
@@ -603,7 +615,7 @@ def compare(pool, rep, filt, members, blocks, ref, status, res, rb, case):
                 break
     if "cT" in ref:
         got_by_name = {c["name"]: c for c in x["comps"]}
-        for name, (want, lo, hi) in ref["cT"].items():
+        for name, (want, lo, hi, want2) in ref["cT"].items():
             c = got_by_name.get(name)
             if c is None:
                 continue
@@ -611,7 +623,10 @@ def compare(pool, rep, filt, members, blocks, ref, status, res, rb, case):
                 bad(tag + "-component-temperature-range", "temperature of component %s = %r outside the members' [%r, %r]" % (name, c["T"], lo, hi))
                 break
             if not _close(c["T"], want):
-                bad(tag + "-component-temperature-mean", "temperature of component %s = %r, block-weight x component-mass weighted mean = %r" % (name, c["T"], want))
+                if _close(c["T"], want2):
+                    bad("component-temperature-symmetry-factor-twice", "temperature of component %s = %r; weighting-parameter x component-mass weighted mean = %r; the result equals the mean in which the symmetry factor of a member enters twice (block weight / height x symmetry-reduced mass: %r)" % (name, c["T"], want, want2))
+                else:
+                    bad(tag + "-component-temperature-mean", "temperature of component %s = %r, weighting-parameter x component-mass weighted mean = %r" % (name, c["T"], want))
                 break
     return vs
 
@@ -677,7 +692,7 @@ def eval_combo(pool, members, rep, filt, variants, counters=None, outcomes=None)
         vs += compare(pool, rep, filt, coll_mem, coll_blocks, refm, status, res, rb, case)
         if status == "ok":
             if outcomes is not None:
-                outcomes.add(core.jhash([round(v, 12) if v else 0.0 for v in sorted(result_vector(res).values())][:40]))
+                outcomes.add(core.jhash(sorted((k, "%.9e" % v) for k, v in result_vector(res).items())))
             vec = result_vector(res) if rep != "Median" else {"bu": res["bu"], **{"nT:" + k: v for k, v in res["nT"].items()}}
             if any("-burnup-" in v["key"] for v in vs):
                 vec.pop("bu", None)  # already reported by the exact oracle; same mechanism
@@ -790,7 +805,7 @@ def member_sets(ctx):
         alpha = [(kd, bu, fl) for kd in kinds for bu in BURNUPS for fl in FLUXES]
         for combo in _msets(alpha, n):
             out.append(([list(m) for m in combo], FLUX_REPS))
-    alpha = [(kd, bu, fl) for kd in kinds3 for (bu, fl) in (BF3 if ctx.quick else [(b, f) for b in BURNUPS for f in FLUXES])]
+    alpha = [(kd, bu, fl) for kd in kinds3 for (bu, fl) in (BF3 if ctx.quick else BF3 + [(5.0, 0.0), (5.0, 3e14)])]
     for combo in _msets(alpha, 3):
         out.append(([list(m) for m in combo], FLUX_REPS[:1] if ctx.quick else FLUX_REPS))
     return out
@@ -882,6 +897,8 @@ def _eval_mgr(case):
             bad("group-key", "block %s (xs type %s, burnup %s, fuel T design %s) is in group %r; (xs type, env group) from the bounds bu%s/T%s gives %r" % (b.getName(), typ[id(b)], b.p.percentBu, b.getType(), keys[0], case["buGroups"], case["tempGroups"], want[id(b)]))
         if b.p.xsType != typ[id(b)]:
             bad("xstype-changed", "grouping changed the xs type of %s: %r -> %r" % (b.getName(), typ[id(b)], b.p.xsType))
+    if vs:
+        return vs, 1  # everything below is keyed by the expected groups: consequences only
     # same partition when asked again
     try:
         groups2 = mgr.makeCrossSectionGroups()
@@ -976,11 +993,17 @@ def _eval_mgr(case):
                 bad("burnup-mean", "group %s: percentBu of the representative = %r, heavy-metal-weighted mean over the eligible members = %r" % (key, float(rb.p.percentBu), wb))
             for nuc in ("U238", "FE56", "NA23"):
                 terms = [nuc_temp_terms(xsd[id(b)], nuc, sfs[id(b)]) for b in el]
-                den = _fsum(wi * t[1] for wi, t in zip(w, terms))
-                wantT = _fsum(wi * t[0] for wi, t in zip(w, terms)) / den if den else 0.0
+                fc = [(float(b.p.flux) if usesFlux and b.p.flux else 1.0) for b in el]
+                den = _fsum(f * t[1] for f, t in zip(fc, terms))
+                wantT = _fsum(f * t[0] for f, t in zip(fc, terms)) / den if den else 0.0
+                den2 = _fsum(wi * t[1] for wi, t in zip(w, terms))
+                want2 = _fsum(wi * t[0] for wi, t in zip(w, terms)) / den2 if den2 else 0.0
                 got = mgr.getNucTemperature(key, nuc)
                 if got is None or not _close(got, wantT):
-                    bad("nuclide-temperature-mean", "group %s: temperature of %s = %r, expected %r" % (key, nuc, got, wantT))
+                    if got is not None and _close(got, want2):
+                        vs.append(core.viol("c20/nuclide-temperature-volume-weighted-twice", "manager group %s (%s): temperature of %s = %r; weight x atom-density mean over the eligible members = %r; the result equals the mean in which each member's volume is applied twice | case=%s" % (key, [b.getName() for b in el], nuc, float(got), wantT, {k: v for k, v in case.items() if k != "kind"}), case))
+                    else:
+                        bad("nuclide-temperature-mean", "group %s: temperature of %s = %r, expected %r" % (key, nuc, None if got is None else float(got), wantT))
                     break
     return vs, 1
 
